@@ -158,8 +158,11 @@ Qed.
 Definition nodupk (s : st) : Prop := NoDup (keys s).
 Definition closedk (s : st) : Prop :=
   forall x i c, getf s x = Some i -> In c (i_children i) -> getf s c <> None.
+(* the parent of an instance that is live or still activated exists (the clean-up of old instances may
+   discard the parent of an ended, non-activated instance) *)
+Definition needs_parent (i : inst) : Prop := live (i_status i) = true \/ i_activated i <> 0%Z.
 Definition parentsk (s : st) : Prop :=
-  forall x i p, getf s x = Some i -> i_parent i = Some p -> getf s p <> None.
+  forall x i p, getf s x = Some i -> i_parent i = Some p -> needs_parent i -> getf s p <> None.
 (* THE invariant: the count of a reference instance that is still activated equals the number of
    child-list entries of live instances that refer to it *)
 Definition CntInv (s : st) : Prop :=
@@ -236,11 +239,19 @@ Proof.
   destruct (srel_fwd _ _ _ _ _ _ S Ec) as (ci' & Ec' & _). congruence.
 Qed.
 
+Lemma irel_needs_parent : forall (R : uid -> Prop) x i i', irel R x i i' -> needs_parent i' -> needs_parent i.
+Proof.
+  intros R x i i' Hrel [Hl|Ha].
+  - left. destruct (live (i_status i)) eqn:El; auto. rewrite (irel_lv _ _ _ _ Hrel El) in Hl. discriminate.
+  - right. intros Hz. apply Ha. destruct Hrel as (_ & _ & _ & _ & _ & _ & _ & (Hz0 & _) & _). auto.
+Qed.
+
 Lemma srel_parentsk : forall (R A : uid -> Prop) s s', Srel R A s s' -> parentsk s -> parentsk s'.
 Proof.
-  intros R A s s' S Hp x i' p Ex' Hpar Hn.
-  destruct (srel_bwd _ _ _ _ _ _ S Ex') as (i & Ex & (_ & P1 & _)).
-  destruct (getf s p) as [pi|] eqn:Ep; [|eapply Hp; eauto; congruence].
+  intros R A s s' S Hp x i' p Ex' Hpar Hnd Hn.
+  destruct (srel_bwd _ _ _ _ _ _ S Ex') as (i & Ex & Hrel).
+  pose proof Hrel as (_ & P1 & _).
+  destruct (getf s p) as [pi|] eqn:Ep; [|eapply Hp; eauto using irel_needs_parent; congruence].
   destruct (srel_fwd _ _ _ _ _ _ S Ep) as (pi' & Ep' & _). congruence.
 Qed.
 
@@ -271,18 +282,19 @@ Definition samecnt (s s' : st) : Prop :=
   keys s' = keys s /\
   (forall r, E s' r = E s r /\ act s' r = act s r) /\
   (forall x i', getf s' x = Some i' -> exists i, getf s x = Some i /\ i_parent i' = i_parent i /\
-                                         i_flow i' = i_flow i /\ i_children i' = i_children i) /\
+                                         i_flow i' = i_flow i /\ i_children i' = i_children i /\
+                                         live (i_status i') = live (i_status i) /\ i_activated i' = i_activated i) /\
   (forall x, getf s x = None -> getf s' x = None).
 
 Lemma samecnt_refl : forall s, samecnt s s.
-Proof. intros s; repeat split; auto. intros x i' H; eauto. Qed.
+Proof. intros s; repeat split; auto. intros x i' H; eauto 10. Qed.
 
 Lemma samecnt_trans : forall s1 s2 s3, samecnt s1 s2 -> samecnt s2 s3 -> samecnt s1 s3.
 Proof.
   intros s1 s2 s3 (K1 & C1 & G1 & N1) (K2 & C2 & G2 & N2). repeat split; try congruence.
   - destruct (C1 r), (C2 r); congruence.
   - destruct (C1 r), (C2 r); congruence.
-  - intros x i3 H. destruct (G2 _ _ H) as (i2 & Hx2 & ? & ? & ?). destruct (G1 _ _ Hx2) as (i1 & Hx1 & ? & ? & ?).
+  - intros x i3 H. destruct (G2 _ _ H) as (i2 & Hx2 & ? & ? & ? & ? & ?). destruct (G1 _ _ Hx2) as (i1 & Hx1 & ? & ? & ? & ? & ?).
     exists i1; repeat split; auto; congruence.
   - auto.
 Qed.
@@ -293,7 +305,7 @@ Proof.
   - apply keys_flows; auto.
   - apply E_flows; auto.
   - apply act_flows; auto.
-  - intros x i' Hx. unfold getf in *. rewrite H in Hx. eauto.
+  - intros x i' Hx. unfold getf in *. rewrite H in Hx. eauto 10.
   - intros x Hx. unfold getf in *. rewrite H. auto.
 Qed.
 
@@ -311,8 +323,8 @@ Proof.
     + rewrite (getf_setf_same _ _ _ _ Ex), Ex. auto.
     + rewrite getf_setf_other; auto.
   - intros y i' Hy. destruct (N.eq_dec x y) as [<-|Hne].
-    + rewrite (getf_setf_same _ _ _ _ Ex) in Hy. inversion Hy; subst. exists i. auto.
-    + rewrite getf_setf_other in Hy; eauto.
+    + rewrite (getf_setf_same _ _ _ _ Ex) in Hy. inversion Hy; subst. exists i. repeat split; auto.
+    + rewrite getf_setf_other in Hy; eauto 10.
   - intros y Hy. apply getf_setf_none; auto.
 Qed.
 
@@ -327,18 +339,19 @@ Lemma samecnt_inv : forall s s', samecnt s s' -> Inv s -> Inv s'.
 Proof.
   intros s s' Hs [Hn Hc Hp Hi (rk & Hr)]. pose proof Hs as (K & C & G & Nn). split.
   - unfold nodupk. rewrite K. auto.
-  - intros x i' c Ex' Hin Hnc. destruct (G _ _ Ex') as (i & Ex & _ & _ & Hch). rewrite Hch in Hin.
+  - intros x i' c Ex' Hin Hnc. destruct (G _ _ Ex') as (i & Ex & _ & _ & Hch & _). rewrite Hch in Hin.
     destruct (getf s c) as [ci|] eqn:Ec; [|eapply Hc; eauto].
     (* c exists in s: it exists in s' because the key lists agree *)
     assert (Hk : In c (keys s)) by (unfold keys; apply in_map_iff; exists (c, ci); split; auto; apply get_in; auto).
     rewrite <- K in Hk. apply (get_none_notin _ _ _ Hnc). exact Hk.
-  - intros x i' p Ex' Hpar Hnp. destruct (G _ _ Ex') as (i & Ex & Hpi & _). rewrite Hpi in Hpar.
+  - intros x i' p Ex' Hpar Hnd Hnp. destruct (G _ _ Ex') as (i & Ex & Hpi & _ & _ & Hli & Hai). rewrite Hpi in Hpar.
+    assert (Hnd0 : needs_parent i) by (unfold needs_parent in *; rewrite <- Hli, <- Hai; auto).
     destruct (getf s p) as [pi|] eqn:Ep; [|eapply Hp; eauto].
     assert (Hk : In p (keys s)) by (unfold keys; apply in_map_iff; exists (p, pi); split; auto; apply get_in; auto).
     rewrite <- K in Hk. apply (get_none_notin _ _ _ Hnp). exact Hk.
   - intros r Hrs Hnz. destruct (C r) as (Er & Ar). rewrite Er, Ar in *.
     apply Hi; auto. eapply samecnt_refshape; eauto.
-  - exists rk. intros x i' c Ex' Hin. destruct (G _ _ Ex') as (i & Ex & _ & _ & Hch). rewrite Hch in Hin. eapply Hr; eauto.
+  - exists rk. intros x i' c Ex' Hin. destruct (G _ _ Ex') as (i & Ex & _ & _ & Hch & _). rewrite Hch in Hin. eapply Hr; eauto.
 Qed.
 
 Lemma samecnt_action_event : forall k a s, samecnt s (action_event k a s).
@@ -519,12 +532,14 @@ Proof.
   assert (Ep1 : getf s1 p = Some pi).
   { unfold s1. rewrite getf_modf. destruct (N.eqb r p) eqn:Erp; [apply N.eqb_eq in Erp; congruence|auto]. }
   assert (Hshape : forall y i', getf s2 y = Some i' -> exists i, getf s y = Some i /\ i_parent i' = i_parent i /\ i_flow i' = i_flow i /\
-                                  (forall c, In c (i_children i') -> In c (i_children i) \/ c = r)).
+                                  (forall c, In c (i_children i') -> In c (i_children i) \/ c = r) /\
+                                  (needs_parent i' -> needs_parent i)).
   { intros y i' Hy. rewrite G2 in Hy. destruct (N.eqb p y) eqn:Epy.
     - apply N.eqb_eq in Epy; subst. inversion Hy; subst. exists pi. repeat split; auto.
       simpl. intros c Hin. apply in_app_or in Hin. destruct Hin as [|[->|[]]]; auto.
     - destruct (N.eqb r y) eqn:Ery.
       + apply N.eqb_eq in Ery; subst. inversion Hy; subst. exists ri. repeat split; auto.
+        intros _. right; auto.
       + exists i'. repeat split; auto. }
   assert (Hex : forall y, getf s y <> None -> getf s2 y <> None).
   { intros y Hy. rewrite G2. destruct (N.eqb p y); [discriminate|]. destruct (N.eqb r y); [discriminate|auto]. }
@@ -532,11 +547,11 @@ Proof.
   - unfold nodupk. change (keys (emit1 s2 (EStarted r))) with (keys s2). unfold s2, s1. rewrite !keys_modf. auto.
   - intros y i' c Hy Hin. change (getf (emit1 s2 (EStarted r)) c) with (getf s2 c).
     change (getf (emit1 s2 (EStarted r)) y) with (getf s2 y) in Hy.
-    destruct (Hshape _ _ Hy) as (i & Hyi & _ & _ & Hch). apply Hex.
+    destruct (Hshape _ _ Hy) as (i & Hyi & _ & _ & Hch & _). apply Hex.
     destruct (Hch _ Hin) as [Hin0| ->]; [eapply Hc; eauto|congruence].
-  - intros y i' q Hy Hpar. change (getf (emit1 s2 (EStarted r)) q) with (getf s2 q).
+  - intros y i' q Hy Hpar Hnd. change (getf (emit1 s2 (EStarted r)) q) with (getf s2 q).
     change (getf (emit1 s2 (EStarted r)) y) with (getf s2 y) in Hy.
-    destruct (Hshape _ _ Hy) as (i & Hyi & Hpi & _). apply Hex. eapply Hp; eauto. congruence.
+    destruct (Hshape _ _ Hy) as (i & Hyi & Hpi & _ & _ & Hnp). apply Hex. eapply Hp; eauto. congruence.
   - intros r0 Hrs0 Hnz.
     change (act (emit1 s2 (EStarted r)) r0) with (act s2 r0) in *.
     change (E (emit1 s2 (EStarted r)) r0) with (E s2 r0).
@@ -614,7 +629,8 @@ Proof.
     destruct (N.eqb r0 q) eqn:Erq; auto. apply N.eqb_eq in Erq; subst. rewrite Eq. auto. }
   assert (Hold : forall y i', getf s4 y = Some i' -> y <> x ->
             exists i, getf s y = Some i /\ i_parent i' = i_parent i /\ i_flow i' = i_flow i /\
-                      (forall c, In c (i_children i') -> In c (i_children i) \/ c = x)).
+                      (forall c, In c (i_children i') -> In c (i_children i) \/ c = x) /\
+                      (needs_parent i' -> needs_parent i) /\ i_activated i' = i_activated i).
   { intros y i' Hy Hyx. rewrite G4 in Hy.
     destruct (N.eqb y x) eqn:Eyx; [apply N.eqb_eq in Eyx; contradiction|].
     destruct (N.eqb y q) eqn:Eyq.
@@ -628,12 +644,12 @@ Proof.
   - intros y i' c Hy Hin.
     destruct (N.eq_dec y x) as [->|Hyx].
     + rewrite Hxs4 in Hy. inversion Hy; subst. simpl in Hin. tauto.
-    + destruct (Hold _ _ Hy Hyx) as (i & Hyi & _ & _ & Hch).
+    + destruct (Hold _ _ Hy Hyx) as (i & Hyi & _ & _ & Hch & _).
       destruct (Hch _ Hin) as [Hin0| ->]; [apply Hex; eapply Hc; eauto|congruence].
-  - intros y i' p0 Hy Hpar.
+  - intros y i' p0 Hy Hpar Hnd.
     destruct (N.eq_dec y x) as [->|Hyx].
     + rewrite Hxs4 in Hy. inversion Hy; subst. simpl in Hpar. inversion Hpar; subst. apply Hex. congruence.
-    + destruct (Hold _ _ Hy Hyx) as (i & Hyi & Hpi & _). apply Hex. eapply Hp; eauto. congruence.
+    + destruct (Hold _ _ Hy Hyx) as (i & Hyi & Hpi & _ & _ & Hnp & _). apply Hex. eapply Hp; eauto. congruence.
   - intros r0 Hrs0 Hnz. rewrite E4, A4 in *.
     destruct (N.eqb r0 x) eqn:Er0x.
     + apply N.eqb_eq in Er0x; subst r0.
@@ -647,9 +663,10 @@ Proof.
       assert (Hxr0 : N.eqb x r0 = false) by (rewrite N.eqb_sym; auto). rewrite Hxr0.
       assert (Hrs : refshape s r0).
       { destruct Hrs0 as (i' & p0 & p0i & Ei' & Hp0 & Ep0i & Hflp).
-        destruct (Hold _ _ Ei' Hr0x) as (i & Ei & Hpi & Hfi & _).
+        destruct (Hold _ _ Ei' Hr0x) as (i & Ei & Hpi & Hfi & _ & _ & Hai).
         assert (Hp0x : p0 <> x).
-        { intros ->. apply (Hp _ _ x Ei); congruence. }
+        { intros ->. apply (Hp _ _ x Ei); try congruence.
+          right. unfold act in Hnz. rewrite Ei in Hnz. auto. }
         destruct (Hold _ _ Ep0i Hp0x) as (p0i0 & Ep0 & _ & Hfp & _).
         exists i, p0, p0i0. repeat split; auto; congruence. }
       rewrite (Hi r0 Hrs Hnz). destruct (live (i_status qi)); lia.
@@ -1241,7 +1258,7 @@ Qed.
 Lemma samecnt_famk : forall s s', samecnt s s' -> famk s -> famk s'.
 Proof.
   intros s s' (_ & _ & G & _) Hf x xi' c ci' Ex' Hin Ec' Hfl.
-  destruct (G _ _ Ex') as (xi & Ex & _ & Fx & Cx). destruct (G _ _ Ec') as (ci & Ec & Pc & Fc & _).
+  destruct (G _ _ Ex') as (xi & Ex & _ & Fx & Cx & _). destruct (G _ _ Ec') as (ci & Ec & Pc & Fc & _).
   rewrite Pc. eapply Hf; eauto; congruence.
 Qed.
 
@@ -1255,7 +1272,7 @@ Proof.
   assert (S0 : samecnt s (modf s f (set_scopes rest))) by (apply samecnt_modf; intros j _; simpl; auto).
   assert (H1 : famk (modf s f (set_scopes rest))) by (eapply samecnt_famk; eauto).
   assert (Hr1 : ranked rk (modf s f (set_scopes rest))).
-  { destruct S0 as (_ & _ & G & _). intros x i' c Ex' Hin. destruct (G _ _ Ex') as (i0 & Ex & _ & _ & Hch).
+  { destruct S0 as (_ & _ & G & _). intros x i' c Ex' Hin. destruct (G _ _ Ex') as (i0 & Ex & _ & _ & Hch & _).
     rewrite Hch in Hin. eapply Hr; eauto. }
   destruct (scope_flows_cs rk n _ _ _ Hr1 Hb) as (S & _).
   eapply samecnt_famk; [eapply samecnt_scope_actions; eauto|]. eapply srel_famk; eauto.
